@@ -551,7 +551,10 @@ def rule_pure(ctx):
         fi = ctx.pkg.func(f"utils.{name}")
         sm = eff.sum[fi.qualname]
         bad = {k: n for k, n in sm.mutates.items() if k[0] in fi.params}
-        if bad:
+        if sm.memoised is not None:
+            ctx.violation("C19.7", fi, fi.node, f"{name} is memoised ({src_of(sm.memoised)})", "a cached conversion hands the same mutable result object to every caller with equal arguments: "
+                          "one caller's in-place edit (or the cache's identity) changes what the next call returns")
+        elif bad:
             k, n = next(iter(bad.items()))
             ctx.violation("C19.7", fi, n, f"{name}: writes into its argument `{k[0]}{k[1]}`", f"`{src_of(n)[:120]}` modifies the caller's array in place: the value handed in is no longer the value the "
                           "identities (round trips, dbm = db + 30) are stated for, and a second call gives a different result")
